@@ -245,8 +245,8 @@ def run(ctx):
     ctx.simgrid(["simgrid"])
     ctx.prove()
     drv = fw.build_harness("k2_comm", extra=C08.HARNESS_FLAGS)
-    n = ctx.n(200, 6000)
-    nw = ctx.n(150, 3000)
+    n = ctx.n(120, 4000)
+    nw = ctx.n(100, 2000)
     progs = list(CORPUS) + [gen_program(ctx.rng) for _ in range(n)] + [gen_withdraw(ctx.rng) for _ in range(nw)]
     if ctx.replay:
         progs = [C08.decode_program(json.load(open(ctx.replay))["case"]["program"])]
